@@ -415,6 +415,20 @@ var harnesses = []harness{
 		e.thread("Shutdown", e.shutdown)
 		e.finish(false)
 	}},
+	{Name: "S9", Desc: "Size || GetConnections || Shutdown (Run already accepting, no connection)", Overlap: []string{"Size", "GetConnections"}, Body: func(o *obs) {
+		e := newEnv(o, false)
+		e.run()
+		vsched.Quiesce()
+		vsched.StartExploring()
+		e.thread("Size", func() {
+			call(o, "Size", func() error { _, err := e.pool.Size(); return err })
+		})
+		e.thread("GetConnections", func() {
+			call(o, "GetConnections", func() error { _, err := e.pool.GetConnections(); return err })
+		})
+		e.thread("Shutdown", e.shutdown)
+		e.finish(false)
+	}},
 }
 
 // s3 builds the established-connection harness with the chosen subset of concurrent operations.
